@@ -287,7 +287,7 @@ func (c *Collection) Pull(ctx context.Context, opts ...ReadOption) <-chan *Colle
 				}
 				change = change.filter(filter)
 				if held != nil {
-					held[change.Id] = change.NewValue
+					held[change.Id] = proto.Clone(change.NewValue) // a copy: what was sent is the subscriber's to edit
 				}
 				select {
 				case <-ctx.Done():
@@ -320,7 +320,7 @@ func (c *Collection) Pull(ctx context.Context, opts ...ReadOption) <-chan *Colle
 				if change.NewValue == nil {
 					delete(held, change.Id)
 				} else {
-					held[change.Id] = change.NewValue
+					held[change.Id] = proto.Clone(change.NewValue)
 				}
 			}
 			select {
